@@ -202,9 +202,14 @@ impl<L: LanguageChildren> LanguageChildren for Bind<L> {
 
     fn weak_shape_impl(&mut self, m: &mut (SlotMap, u32)) {
         let s = self.slot;
+        // `s` might shadow a free slot of the same name that we have already seen.
+        let shadowed = m.0.get(s);
         add_slot(&mut self.slot, m);
         self.elem.weak_shape_impl(m);
         m.0.remove(s);
+        if let Some(x) = shadowed {
+            m.0.insert(s, x);
+        }
     }
 }
 
